@@ -262,6 +262,7 @@ func runTot(p part, c *ctx, base *vlib.PRNG) {
 					c.out.dist("error_messages", errClass(o.Msg))
 				}
 			}
+			cc.sequencePass()
 		}(w)
 	}
 	wg.Wait()
